@@ -52,6 +52,7 @@ FutureT = Opaque("Future")
 # what a completed worker future holds (trusted: the executor returns what _lint_file_worker returned, pickled)
 future_dicts = uf("future_dicts", [FutureT], SeqOf(ViolDictT))
 future_failed = uf("future_failed", [FutureT], Bool)   # result() re-raises the worker's / the pool's exception
+future_value_error = uf("future_value_error", [FutureT], Bool)  # ... and that exception is a ValueError
 completion_order = uf("as_completed_order", [SeqOf(FutureT)], SeqOf(FutureT))  # SOME order (the schedule)
 
 import z3  # noqa: E402
@@ -65,8 +66,10 @@ def _x_future_result(ex, args, kwargs, lineno):
     f = args[0].t
     if ex.merge_depth == 0 and ex.spec_depth == 0:
         if ex.decide(z3.Function("uf.future_failed", FutureT.sort(), z3.BoolSort())(f)):
+            if ex.decide(z3.Function("uf.future_value_error", FutureT.sort(), z3.BoolSort())(f)):
+                raise RaiseSig(VExc("ValueError"))
             raise RaiseSig(VExc("Exception"))
-    ex.ufs_used.update({"future_dicts", "future_failed"})
+    ex.ufs_used.update({"future_dicts", "future_failed", "future_value_error"})
     return VList(ViolDictT, seq=z3.Function("uf.future_dicts", FutureT.sort(), z3.SeqSort(ViolDictT.sort()))(f))
 
 
@@ -95,19 +98,30 @@ def wellformed(dicts):
 
 @opaque
 def future_violations(f: FutureT) -> Violations:
-    """What the parent obtains from one completed future: its violations, or nothing when the worker / the transfer
-    failed or a dict cannot be revived (the error is logged and swallowed)."""
-    return revived(future_dicts(f)) if not future_failed(f) and wellformed(future_dicts(f)) else []
+    """What the parent obtains from one completed future that does not end the run (see future_ends_run): its
+    violations, or nothing when the worker / the transfer failed with something else than a ValueError (logged)."""
+    return revived(future_dicts(f)) if not future_failed(f) else []
+
+
+@opaque
+def future_ends_run(f: FutureT) -> Bool:
+    """The future carries a ValueError -- a configuration error raised in the worker (or a dict that cannot be revived):
+    the parent re-raises it, so the parallel run ends like the sequential one (exit code 2)."""
+    return future_value_error(f) if future_failed(f) else not wellformed(future_dicts(f))
 
 
 OrchSelfT = Rec("Orchestrator", cls=O + "Orchestrator")
 
 
 @contract(O + "Orchestrator._extract_violations_from_future", no_selftest=True, props=["C07"],
-          types=dict(self=OrchSelfT, future=FutureT), returns=Violations)
+          types=dict(self=OrchSelfT, future=FutureT), returns=Violations, raises=["ValueError"])
 class ExtractViolationsFromFuture:
     def reveals(future):
-        return reveal(future_violations, future)
+        return reveal(future_violations, future) and reveal(future_ends_run, future)
+
+    def raises_when(future):
+        # property text: "... and the same exit code as the sequential run": a worker's ValueError is not swallowed
+        return future_ends_run(future)
 
     def value(future):
         return future_violations(future)
@@ -121,14 +135,23 @@ def collect(fs: SeqOf(FutureT)) -> Violations:
 
 
 @contract(O + "Orchestrator._collect_parallel_results", no_selftest=True, props=["C07"],
-          types=dict(self=OrchSelfT, futures=SeqOf(FutureT), future=FutureT, violations=Violations), returns=Violations)
+          types=dict(self=OrchSelfT, futures=SeqOf(FutureT), future=FutureT, violations=Violations), returns=Violations,
+          raises=["ValueError"])
 class CollectParallelResults:
+    def raises_when(futures):
+        # whatever the completion order: some worker reported a configuration error <=> the run ends with it
+        return some_ends_run(completion_order(futures))
+
     def ensures_concatenation_in_completion_order(futures, result):
         return result == collect(completion_order(futures))
 
     def inv0(self, old, futures, violations, rest):
         return collect(completion_order(futures)) == violations + collect(rest) and self == old.self \
-            and futures == old.futures
+            and futures == old.futures and some_ends_run(completion_order(futures)) == some_ends_run(rest)
+
+
+def some_ends_run(fs: SeqOf(FutureT)) -> Bool:
+    return len(fs) > 0 and (future_ends_run(fs[0]) or some_ends_run(fs[1:]))
 
 
 # ---- the multiset collected does not depend on the completion order
@@ -218,7 +241,7 @@ def workers_of(max_workers):
 
 
 @contract(O + "Orchestrator._execute_parallel_linting", props=["C07"],
-          types=dict(self=OrchT, file_paths=SeqOf(PathT), max_workers=Int), returns=Viols,
+          types=dict(self=OrchT, file_paths=SeqOf(PathT), max_workers=Int), returns=Viols, raises=["ValueError"],
           assumed="ProcessPoolExecutor context manager, executor.submit and pickling are outside the subset (trusted, "
                   "DESIGN.md 3/C07): the result is what _collect_parallel_results (verified) builds from the futures of "
                   "the work items (file, project_root, config); each worker runs _lint_file_worker (verified)")
@@ -347,19 +370,23 @@ def fresh_lint(file_path, root, config):
 
 
 @contract(O + "_lint_file_worker", no_selftest=True, props=["C07"],
-          types=dict(args=TupleOf(PathT, PathT, Dict), orchestrator=OrchT, violations=Violations), returns=SeqOf(ViolDictT))
+          types=dict(args=TupleOf(PathT, PathT, Dict), orchestrator=OrchT, violations=Violations), returns=SeqOf(ViolDictT),
+          raises=["ValueError"])
 class LintFileWorker:
+    def on_raise_only_configuration_errors(exc_class):
+        return exc_class == "ValueError"
+
     def ensures_per_file_result_of_a_fresh_orchestrator(args, result, caught):
         # per-file equivalence: the worker returns (the dict image of) lint_file(f) of a fresh orchestrator with the same
         # root and configuration; it equals the parent's lint_file(f) iff no rule's check() depends on other files
         return implies(len(caught) == 0, result == [dict_of(v) for v in fresh_lint(args[0], args[1], args[2])])
 
-    def ensures_errors_reach_the_parent(caught):
-        # PROPERTY-LEVEL (expected to fail, known finding C07-parallel-swallows-errors): an error that aborts the
-        # sequential run with exit code 2 (a rule's configuration ValueError, re-raised by _safe_check_rule) must not
-        # be turned into "no violations" by the worker
-        return len(caught) == 0
+    def ensures_configuration_errors_reach_the_parent(caught):
+        # PROPERTY-LEVEL (was known finding C07-parallel-swallows-errors; repaired): an error that aborts the sequential
+        # run with exit code 2 -- a rule's configuration ValueError, re-raised by _safe_check_rule -- is never turned
+        # into "no violations" by the worker
+        return "ValueError" not in caught
 
     def ensures_a_failed_worker_reports_nothing(result, caught):
-        # finding-adjusted: every exception in the worker is logged and swallowed; the file then contributes []
+        # code-derived: any OTHER exception in the worker is logged and swallowed; the file then contributes []
         return implies(len(caught) > 0, len(result) == 0)
